@@ -36,12 +36,16 @@ int usleep(useconds_t us) {
 	return 0;
 }
 static int drv_log = -1;
+/* the interposed syslog really formats its arguments (into a scratch buffer), as the C library's would: a text that is
+   passed as the format, or arguments that do not match it, fault here under the sanitizers instead of going unnoticed */
 void syslog(int p, const char *f, ...) {
+	char scratch[2048]; va_list ap;
 	if (drv_log < 0) drv_log = getenv("DRV_LOG") != NULL;
-	if (drv_log) { va_list ap; va_start(ap, f); vfprintf(stderr, f, ap); va_end(ap); fputc('\n', stderr); }
+	va_start(ap, f); vsnprintf(scratch, sizeof scratch, f, ap); va_end(ap);
+	if (drv_log) { fputs(scratch, stderr); fputc('\n', stderr); }
 	(void)p;
 }
-void vsyslog(int p, const char *f, va_list ap) { (void)p; (void)f; (void)ap; }
+void vsyslog(int p, const char *f, va_list ap) { char scratch[2048]; vsnprintf(scratch, sizeof scratch, f, ap); (void)p; }
 void openlog(const char *i, int o, int f) { (void)i; (void)o; (void)f; }
 void closelog(void) {}
 
